@@ -242,7 +242,7 @@ pub fn run(ctx: &Ctx) -> i32 {
         salt: 0x0101_0000,
         nshards: 64,
         enumerated: &enumerated,
-        random_cases: ctx.tier.pick(5_000_000, 60_000_000),
+        random_cases: ctx.tier.pick(5_000_000, 240_000_000),
         build_random: &|e| b(e, Force::default()),
         classify: &|c, j, t: &Tag, s| classify(c, j, s, &t.0, t.1, t.2),
         all_quirks: false,
